@@ -474,6 +474,9 @@ pub fn run(args: &Args, tier: &str, seed: u64, backend: &str) -> Report {
     }
 
     srv.stop();
+    for note in take_uri_notes() {
+        rep.violation("C11:client-holds-another-target", note, vec!["c11".to_string()]);
+    }
     rep.extra.insert("tls_backend_of_this_build".into(), J::Str(backend.to_string()));
     rep.extra.insert("peer_events_logged".into(), J::Int(srv.log.lock().unwrap().len() as i64));
     rep.rule = "Live loopback peer (raw std::net HTTP/1.1 server with an event log) x both clients. (A) random exchanges: G1 requests with payloads 0 B..MiBs from fragmented / interrupted / not-ready blocking and async sources, random custom headers, Basic credentials, ipp:// and http:// targets with path+query, responses under content-length / chunked / close-delimited framing with write fragmentation; (B) HTTP statuses 4xx/5xx (quick: 20 registered ones, thorough: all 400..599) carrying a valid IPP body; (C) connection cut at EVERY offset inside the response's header+attributes under each framing; (D) connection closed or server silent before the HTTP response head is complete (with and without a request payload), server stalled before / inside the response, or trickling it in small pieces over several seconds, with request_timeout set; (E) 16 concurrent senders x 20 sends through one client. Offline checker over the joined client-call / peer-event logs: exactly one POST per send, exact target and Host, Content-Type, custom headers, Basic credentials, body decoding (reference decoder) to exactly the request + payload; returned response == scripted response incl. trailing data; error cases must be Err; concurrent calls matched to their own responses by unique request-id + marker. evaluations = sends judged.".into();
